@@ -77,3 +77,9 @@ Definition session_poll (shutdown_first notified feed_lost coin : bool) : wind :
   | false, true => Abrupt
   | true, true => if shutdown_first then Goodbye else if coin then Goodbye else Abrupt
   end.
+
+(* endpoint/src/main.rs after an interrupt: the process may exit when its select! ends. [waits] =
+   MAIN_AWAITS_COMPLETION: the listener's return is followed by awaiting completion; otherwise (as found) the
+   listener's return ends the process at once. *)
+Definition process_may_exit (waits : bool) (s : sstate) (listener_returned : bool) : bool :=
+  if waits then completion_done s else listener_returned.
